@@ -37,9 +37,13 @@ def build(g, max_slots=4, max_ready=3):
         def parallelizable(self):
             return self._par
 
+        sync = False
+
         def start_execution(self, ctx, slot):
             ex = ctx["executor"]
             log.append({"op": self, "slot": slot, "inflight_before": list(ctx["inflight"](ex))})
+            if self.sync:
+                return OperationExecutionHandle.from_sync_execution()
             h = OperationExecutionHandle.from_async_process(pid=ctx["next_pid"]())
             return h
 
@@ -95,18 +99,24 @@ def build(g, max_slots=4, max_ready=3):
     ready = []
     for i in range(r):
         op = FakeOp("r%d" % i, g.flag("ready_par%d" % i))
+        # a synchronous operation (like a group or combine step): finishes without a process
+        op.sync = g.flag("ready_sync%d" % i) if i == 0 else False
         if g.flag("ready_dep_failed%d" % i):
             dep = FakeOp("d%d" % i, False, OperationState.FAILED)
             op.add_exe_dep(dep)
         ready.append(op)
         rq.enqueue_op(op)
-    ctx = {"executor": ex, "inflight": lambda e: [(h.slot, o) for h, o in e._inflight_ops._processes.values()], "next_pid": next_pid}
+    def inflight(e):
+        out = [(h.slot, o) for h, o in e._inflight_ops._processes.values()]
+        out += [(h.slot, o) for h, o in getattr(e._inflight_ops, "_sync_ops", [])]
+        return out
+    ctx = {"executor": ex, "inflight": inflight, "next_pid": next_pid}
     return ex, ctx, log, ops, ready, J, FakeOp
 
 
 def invariant(g, ex, J, where, D):
     """Representation invariant of the executor (and the safety facts it implies)."""
-    procs = list(ex._inflight_ops._processes.values())
+    procs = list(ex._inflight_ops._processes.values()) + list(getattr(ex._inflight_ops, "_sync_ops", []))
     slots = [h.slot for h, _ in procs if h.slot is not None]
     g.require(len(procs) <= J, "par:more-than-jobs-running", "%s: %d operations in flight with %d slots; %s" % (where, len(procs), J, D))
     g.require(len(set(slots)) == len(slots), "par:duplicate-slot", "%s: in-flight slots %s; %s" % (where, slots, D))
@@ -133,6 +143,12 @@ def launch_step(g):
         [(o, "dep-failed" if o.exe_deps else "") for o in ready])
     invariant(g, ex, J, "pre-state (harness)", D)
     ex._launch_ops_if_able(ctx, False)
+    # synchronous operations complete at the next wait; drain them so that their slots come back
+    guard = 0
+    while getattr(ex._inflight_ops, "_sync_ops", []) and guard < 8:
+        ex._wait_for_next_inflight_op(ctx, False)
+        ex._launch_ops_if_able(ctx, False)
+        guard += 1
     for ev in log:
         before = ev["inflight_before"]
         op = ev["op"]
